@@ -11,7 +11,8 @@ def correspond(ctx):
                          "expressions / Python constants; acyclic and use_graph_primitive on/off; compared: the program "
                          "emitted by the real cspuz.graph.active_vertices_connected on a real Solver vs the Lean model's "
                          "program (declarations in order, constraints as a multiset); non-trivial = a program was emitted, "
-                         "distinct by call arguments")
+                         "distinct by call arguments"
+                         " + a handful of deterministic medium / LARGE instances per family (graphs.big_graphs: 40, 70 and 258..319 vertices -- vertex ids beyond CPython's small-int cache, more than 32 / 64 vertices --, boards up to 16x17); about half of the Graph objects are observed part-way through construction (accessors read, every graph constraint posted once on a throw-away Solver) before the remaining edges are added")
     graphcorr.run_cases(ctx, graphcorr.case_avc, ctx.n(400, 6000), "avc", bigs=graphcorr.graph_bigs() + graphcorr.grid_bigs())
     if not ctx.quick():
         fs = search(ctx, None, budget=40)
@@ -127,7 +128,7 @@ def search(ctx, why, budget=None):
                         "avc:" + key[4:] + ":large-graph",
                         f"active_vertices_connected(acyclic={acyclic}, use_graph_primitive={prim}) on a graph with {n} vertices and "
                         f"{len(edges)} edges (edges {edges[:4]} ... {edges[-6:]}), active vertices ({bad[0]}) = {bad[1] if bad[1] is None or len(bad[1]) <= 16 else str(bad[1][:8]) + ' ... ' + str(bad[1][-8:])}: "
-                        f"satisfiable={bad[2]} but expected {bad[3]}",
+                        f"satisfiable={bad[2]} but expected {bad[3]}" + graphs.history_note(n, edges),
                         {"big": True, "n": n, "edges": edges, "acyclic": acyclic, "prim": prim, "pattern_name": bad[0], "active": bad[1]})
     # winding regions (serpentines, spirals: the in-region distances exceed the board's diameter) through the 2-D entry point
     for (h, w) in WINDING_BOARDS:
